@@ -6,6 +6,8 @@ Case description (JSON, enough for `rerun`):
   item = ["g", name, [[num,den]...], [qubits]] | ["barrier", [qubits], label|null] | ["ubarrier", q, uuid-string]
        | ["measure", q, c] | ["reset", q] | ["move", a, b] | ["cutwire", q]
        | ["qpd2", basis key, bid|null, label|null, [a, b]] | ["qpd1", basis key, half, bid|null, label|null, q]
+  desc["predef"] (optional) = indices of items whose Instruction.definition is read before the call (call history: Qiskit
+  caches it; the Coq model is history-independent)
   labels = null | [tagged label ...]          observables = null | [[phase, [letters by qubit index]] ...]
 """
 from __future__ import annotations
@@ -114,6 +116,9 @@ def build(desc):
             qc.append(SingleQubitQPDGate(make_basis(it[1]), it[2], basis_id=it[3], label=it[4]), [it[5]])
         else:
             raise ValueError(it)
+    # call history: the .definition of these instructions was READ (hence cached by Qiskit) before the call under test
+    for i in desc.get("predef", []):
+        qc.data[i].operation.definition  # noqa: B018
     return qc
 
 
@@ -452,6 +457,10 @@ def rand_desc(rng, n, labels, *, clbits=False, **kw):
         if rng.integers(0, 8) == 0:
             desc["loose_clbits"] = 1
     desc["items"] = rand_items(rng, n, nclbits(desc), labels, length=int(rng.integers(0, 11)), clbits=clbits, **kw)
+    # for some pre-placed TwoQubitQPDGates the definition has been looked at before the call (e.g. by drawing the circuit)
+    q2 = [i for i, it in enumerate(desc["items"]) if it[0] == "qpd2"]
+    if q2 and rng.integers(0, 2):
+        desc["predef"] = [i for i in q2 if rng.integers(0, 3) > 0]
     return desc
 
 
@@ -1182,6 +1191,12 @@ def _judge_problem(case, n, problems):
             else:
                 cc.append(i)
         gotsubs.append([l, nq, cc])
+    for l, nq, c in subs:
+        for i in c:
+            if i["op"][0] == "qpd1" and not _is_preplaced_qpd1(circ, i) and (i["op"][4] is None or i["op"][4][1] is None
+                                                                         or i["op"][4][1] >= len(bases)):
+                problems.append(f"partition {l}: placeholder half {i['op']} on qubit {i['qs']} carries no valid cut index "
+                                f"(label suffix {None if i['op'][4] is None else i['op'][4][1]}, {len(bases)} cuts)")
     for kidx in range(len(bases)):
         hs = seen.get(kidx, [])
         if sorted(h[0] for h in hs) != [0, 1]:
@@ -1314,6 +1329,13 @@ def _rerun(case):
 
 def witness(name):
     """F4: 3 qubits, h 0; cx 0 1, automatic labels, observable IZZ -> sub-observables carry the key None."""
+    if name in ("F16", "C10-F16"):
+        # pre-placed cut gate whose definition was read before the call: halves come out without the cut index
+        desc = dict(qregs=[["reg", 3]], cregs=[], loose_clbits=0, predef=[1],
+                    items=[["g", "h", [], [0]], ["qpd2", ["cx", []], None, "cut_cx", [1, 2]], ["g", "cx", [], [0, 1]]])
+        case = rerun(dict(kind="problem", desc=desc, labels=[tagged(x) for x in "AAB"], obs=[[0, [3, 3, 3]]]))
+        v = judge(case)
+        return dict(fails=bool(v["violates"]), detail=v["detail"])
     if name not in ("F4", "C10-F4"):
         return dict(fails=None, detail=f"unknown witness {name}")
     desc = dict(qregs=[["reg", 3]], cregs=[], loose_clbits=0, items=[["g", "h", [], [0]], ["g", "cx", [], [0, 1]]])
